@@ -89,13 +89,35 @@ theorem size_lines_match_serialize_lines (S : Schema) (d : StructDef) :
     cases d.base.isSome <;> simp
 
 /-- `deserialize` stores every value-carrying own member into the instance: for each such member the body holds the line
-    `instance._<member> = <member>` (the members are those `serialize` writes, see `serialize_lines_cover_own_members`) -/
+    `instance._<member> = <member>` (the members are those `serialize` writes, see `serialize_lines_cover_own_members`).
+    The generator drops the first stored member *by name* when it is called `size` (`filter_size_if_first`), and tells
+    inherited members by name: hence the two side conditions. -/
 theorem deserialize_assigns_every_carrying_member (S : Schema) (ty : String) (d : StructDef) (f : Field)
-    (hf : f ∈ ownFields d) (hc : f.kind.carries = true) :
+    (hf : f ∈ ownFields d) (hc : f.kind.carries = true) (hn : f.name ≠ "size") (hi : isInherited d f = false) :
     ("instance._" ++ printerName f.name ++ " = " ++ printerName f.name) ∈ deserializeBody S ty d := by
+  have hfd : f ∈ d.fields := List.mem_of_mem_drop hf
+  have hfilt : f ∈ d.fields.filter fun f => !(f.kind.isReservedKind || f.kind.isBoundSize || f.kind.isComputed) := by
+    refine List.mem_filter.mpr ⟨hfd, ?_⟩
+    cases hk : f.kind <;> simp [hk, FK.carries] at hc <;> simp [FK.isReservedKind, FK.isBoundSize, FK.isComputed]
+  have hall : f ∈ nonReservedAll d := by
+    unfold nonReservedAll
+    cases hl : d.fields.filter fun f => !(f.kind.isReservedKind || f.kind.isBoundSize || f.kind.isComputed) with
+    | nil => rw [hl] at hfilt; cases hfilt
+    | cons g rest =>
+      rw [hl] at hfilt
+      simp only
+      split
+      · rename_i hg
+        rcases List.mem_cons.mp hfilt with rfl | h
+        · simp only [beq_iff_eq] at hg; exact absurd hg hn
+        · exact h
+      · exact hfilt
+  have hown : f ∈ nonReservedOwn d := by
+    unfold nonReservedOwn
+    exact List.mem_filter.mpr ⟨hall, by simp [hi]⟩
   unfold deserializeBody
-  simp only [List.mem_append, List.mem_map, List.mem_filter]
-  exact Or.inl (Or.inr ⟨f, ⟨hf, hc⟩, rfl⟩)
+  simp only [List.mem_append, List.mem_map]
+  exact Or.inl (Or.inr ⟨f, hown, rfl⟩)
 
 /-- a concrete `deserialize` ends by returning the instance it built; an abstract `_deserialize` by returning its window
     (`sizeLocal d`: the local of the struct's size member, `size_` without one) -/
